@@ -68,7 +68,7 @@ func Diff(dir1, dir2 string, w *world.World, c *world.Conc, stop bool, format st
 		if e.Error() != nil {
 			msg = e.Error().Error()
 		}
-		obs.Errors = append(obs.Errors, ErrObs{Severe: e.IsSevere(), Fatal: e.IsFatal(), Class: ClassifyErr(msg), Msg: msg, Loc: e.Location()})
+		obs.Errors = append(obs.Errors, ErrObs{Severe: e.IsSevere(), Fatal: e.IsFatal(), Class: ClassifyErr(msg), Msg: msg, Loc: e.Location(), Mentions: []string{}})
 	}
 	if err != nil {
 		obs.Outcome = "error"
